@@ -201,9 +201,27 @@ class C09(Prop):
             with warnings.catch_warnings():
                 warnings.simplefilter('ignore')
                 pre = KFACPreconditioner(model, **r.kw)
+                before = pre.state_dict()
                 try:
                     pre.load_state_dict(state)
                 except ValueError:
+                    # whatever the rejected call did, a valid state loaded afterwards (here: the state of a fresh preconditioner, whose
+                    # factors are still None) must be restored exactly - nothing of the rejected state may survive
+                    import pickle
+                    try:
+                        pre.load_state_dict(pickle.loads(pickle.dumps(before)), compute_inverses=False)
+                    except Exception as e:  # noqa: BLE001
+                        return f'after a rejected state with {what}, loading a valid state raised {type(e).__name__}: {e}'
+                    after = pre.state_dict()
+                    for key in set(before) | set(after):
+                        if key != 'layers' and before.get(key) != after.get(key):
+                            return f'a valid state loaded after a rejected one ({what}) is not restored: {key} = {after.get(key)!r}, saved {before.get(key)!r}'
+                    for n in before['layers']:
+                        for f in ('A', 'G'):
+                            a, b = before['layers'][n][f], after['layers'][n][f]
+                            if (a is None) != (b is None) or (a is not None and not torch.equal(a, b)):
+                                return (f'a valid state loaded after a rejected one ({what}) is not restored: factor {f} of layer {n} is '
+                                        f'{"None" if b is None else "a tensor left behind by the rejected state"}, saved {"None" if a is None else "a tensor"}')
                     continue
                 except Exception as e:  # noqa: BLE001
                     return f'state with {what}: raised {type(e).__name__} instead of ValueError: {e}'
